@@ -241,7 +241,7 @@ func EvalFinite(f *ssa.Function, args []AbsVal, depth int) (results []AbsVal, ok
 				env[x] = v
 			case *ssa.Call:
 				g := x.Call.StaticCallee()
-				if g == nil || g.Blocks == nil || g.Pkg != f.Pkg {
+				if g == nil || g.Blocks == nil || !IsConsul(funcPkgPath(g)) {
 					return nil, false, "call outside the fragment: " + CalleeName(&x.Call)
 				}
 				var cargs []AbsVal
